@@ -72,11 +72,11 @@ let run_b edits_s triples_s =
 
 (* the model predicts every refusal (`accepted`); nothing is copied from the implementation *)
 let run_w ids npool wops_s =
-  let mid, nid, sib, n2, bigid, st2 = match String.split_on_char ':' ids with
-    | [a; b; c; d; e; f] -> cz a, cz b, cz c, cz d, cz e, (if f = "-1" then None else Some (cz f))
+  let mid, nid, sib, n2, bigid, st2, gw = match String.split_on_char ':' ids with
+    | [a; b; c; d; e; f; g] -> cz a, cz b, cz c, cz d, cz e, (if f = "-1" then None else Some (cz f)), cz g
     | _ -> failwith "bad ids" in
   let pool = List.init (int_of_string npool) (fun _ -> []) in
-  let w = ref (init_world mid nid sib n2 bigid st2 pool) in
+  let w = ref (init_world mid nid sib n2 bigid gw st2 pool) in
   let toks = fields wops_s in
   let obs = List.map (fun tok ->
       let parts = String.split_on_char ':' tok in
@@ -112,8 +112,8 @@ let run_w ids npool wops_s =
         | Some f -> f
         | None -> if accepted !w o then "K" else "E" in
       w := wstep !w o;
-      Printf.sprintf "%s:%s:%s:%s:%d:%s" flag (zs (world_can_id !w)) (zs !w.w_id) (zs !w.w_prio)
-        (if !w.w_has_static then 1 else 0) (zs !w.w_node_id)) toks in
+      Printf.sprintf "%s:%s:%s:%s:%d:%s:%s" flag (zs (world_can_id !w)) (zs !w.w_id) (zs !w.w_prio)
+        (if !w.w_has_static then 1 else 0) (zs !w.w_node_id) (zs (gateway_can_id !w))) toks in
   (* the save / load leg: the message is saved iff it is attached to an interface that is on the
      bus, and then keeps its CAN-ID *)
   let loaded = if !w.w_attached && !w.w_on_bus then zs (world_can_id !w) else "-" in
